@@ -90,18 +90,23 @@ COMMON_ATTRS = ("data", "NFFT", "sampling", "scale_by_freq", "detrend", "sides")
 
 # kernels: the names the class resolves at call time (module, attribute), in call order
 KERNELS = {
-    "Periodogram": (("spectrum.periodogram", "speriodogram"),),
-    "pcorrelogram": (("spectrum.correlog", "CORRELOGRAMPSD"),),
-    "pburg": (("spectrum.burg", "arburg"), ("spectrum.arma", "arma2psd")),
-    "pyule": (("spectrum.yulewalker", "aryule"), ("spectrum.arma", "arma2psd")),
-    "pcovar": (("spectrum.covar", "arcovar"), ("spectrum", "arma2psd")),
-    "pmodcovar": (("spectrum.modcovar", "modcovar"), ("spectrum", "arma2psd")),
-    "parma": (("spectrum.arma", "arma_estimate"), ("spectrum.arma", "arma2psd")),
-    "pma": (("spectrum.arma", "ma"), ("spectrum.arma", "arma2psd")),
-    "pminvar": (("spectrum.minvar", "minvar"),),
-    "pmusic": (("spectrum.eigenfre", "eigen"),),
-    "pev": (("spectrum.eigenfre", "eigen"),),
-    "MultiTapering": (("spectrum.mtm", "pmtm"),),
+    # outer kernels first (index 0 is used to count recomputations), then inner seams: numerical
+    # routines the kernels themselves look up as module globals
+    "Periodogram": (("spectrum.periodogram", "speriodogram"), ("spectrum.periodogram", "rfft"),
+                    ("spectrum.periodogram", "fft")),
+    "pcorrelogram": (("spectrum.correlog", "CORRELOGRAMPSD"), ("spectrum.correlog", "xcorr"),
+                     ("spectrum.correlog", "fft")),
+    "pburg": (("spectrum.burg", "arburg"), ("spectrum.arma", "arma2psd"), ("spectrum.arma", "fft")),
+    "pyule": (("spectrum.yulewalker", "aryule"), ("spectrum.arma", "arma2psd"), ("spectrum.arma", "fft")),
+    "pcovar": (("spectrum.covar", "arcovar"), ("spectrum", "arma2psd"), ("spectrum.arma", "fft")),
+    "pmodcovar": (("spectrum.modcovar", "modcovar"), ("spectrum", "arma2psd"), ("spectrum.arma", "fft")),
+    "parma": (("spectrum.arma", "arma_estimate"), ("spectrum.arma", "arma2psd"), ("spectrum.arma", "fft"),
+              ("spectrum.arma", "CORRELATION")),
+    "pma": (("spectrum.arma", "ma"), ("spectrum.arma", "arma2psd"), ("spectrum.arma", "fft")),
+    "pminvar": (("spectrum.minvar", "minvar"), ("spectrum.minvar", "arburg"), ("spectrum.minvar", "fft")),
+    "pmusic": (("spectrum.eigenfre", "eigen"), ("spectrum.eigenfre", "svd"), ("spectrum.eigenfre", "fft")),
+    "pev": (("spectrum.eigenfre", "eigen"), ("spectrum.eigenfre", "svd"), ("spectrum.eigenfre", "fft")),
+    "MultiTapering": (("spectrum.mtm", "pmtm"), ("spectrum.mtm", "dpss")),
 }
 
 
